@@ -175,8 +175,11 @@ enum Place {
     /// outside by 1/100 of the documented tolerance (1e-8 of the limit): not reported
     LowerWithinTol,
     UpperWithinTol,
+    /// both limits exactly 0, where 0 lies well inside the range / well outside of it
+    ZeroInside,
+    ZeroOutside,
 }
-const PLACES: [Place; 9] = [Place::Inside, Place::LowerOut, Place::UpperOut, Place::BothOut, Place::Exact, Place::LowerJustOut, Place::UpperJustOut, Place::LowerWithinTol, Place::UpperWithinTol];
+const PLACES: [Place; 11] = [Place::Inside, Place::LowerOut, Place::UpperOut, Place::BothOut, Place::Exact, Place::LowerJustOut, Place::UpperJustOut, Place::LowerWithinTol, Place::UpperWithinTol, Place::ZeroInside, Place::ZeroOutside];
 
 /// declared limits for a placement relative to the expected range; None if not representable
 fn place(lo: f64, hi: f64, p: Place) -> Option<(f64, f64)> {
@@ -197,6 +200,8 @@ fn place(lo: f64, hi: f64, p: Place) -> Option<(f64, f64)> {
         Place::UpperJustOut if hi.abs() > 1e-300 => (lo + r, hi + hi.abs() * 1e-4),
         Place::LowerWithinTol if lo.abs() > 1e-300 => (lo - lo.abs() * 1e-8, hi - r),
         Place::UpperWithinTol if hi.abs() > 1e-300 => (lo + r, hi + hi.abs() * 1e-8),
+        Place::ZeroInside if lo + r < 0.0 && 0.0 < hi - r => (0.0, 0.0),
+        Place::ZeroOutside if 0.0 < lo - r.max(tl) || 0.0 > hi + r.max(th) => (0.0, 0.0),
         _ => return None,
     };
     if matches!(p, Place::LowerJustOut | Place::LowerWithinTol) && !(l < lo) {
@@ -279,7 +284,7 @@ fn build(c: &Case) -> Built {
             skipped += 1;
             continue;
         };
-        let out = !matches!(p, Place::Inside | Place::Exact | Place::LowerWithinTol | Place::UpperWithinTol) && c.conv.evaluated();
+        let out = !matches!(p, Place::Inside | Place::Exact | Place::LowerWithinTol | Place::UpperWithinTol | Place::ZeroInside) && c.conv.evaluated();
         let (ls, hs) = (flt(l), flt(h));
         let mut reg = |block: &str, name: String, line: u32, expected: &mut BTreeSet<(String, String, u32)>, subjects: &mut BTreeSet<(String, String, u32)>| {
             let k = (block.to_string(), name, line);
@@ -342,7 +347,9 @@ fn build(c: &Case) -> Built {
     let contrast = if dtname == "UBYTE" { "SLONG" } else { "UBYTE" };
     let dims = ["X", "Y", "Z", "4", "5"];
     for k in 0..5 {
-        let mut rl = format!("/begin RECORD_LAYOUT RLM{k} FNC_VALUES 1 {dtname} COLUMN_DIR DIRECT");
+        // (the function values have the widest type: the limits that are "inside" for the type under test are inside for it as
+        // well, and taking the values' type for an axis of the same conversion is visible)
+        let mut rl = format!("/begin RECORD_LAYOUT RLM{k} FNC_VALUES 1 FLOAT64_IEEE COLUMN_DIR DIRECT");
         for (d, dn) in dims.iter().enumerate() {
             rl.push_str(&format!(" AXIS_PTS_{dn} {} {} INDEX_INCR DIRECT", d + 2, if d == k { dtname } else { contrast }));
         }
@@ -357,7 +364,7 @@ fn build(c: &Case) -> Built {
                 continue;
             }
             let Some((l, h)) = place(elo, ehi, *p) else { continue };
-            let out = !matches!(p, Place::Inside | Place::LowerWithinTol | Place::UpperWithinTol) && c.conv.evaluated();
+            let out = !matches!(p, Place::Inside | Place::LowerWithinTol | Place::UpperWithinTol | Place::ZeroInside) && c.conv.evaluated();
             for k in 0..5 {
                 let name = format!("CM{k}_{pi}");
                 let l0 = push(&mut t, &format!("/begin CHARACTERISTIC {name} \"\" CUBE_5 0x0 RLM{k} 0 {convname} {} {}\n", flt(il), flt(ih)));
